@@ -248,6 +248,8 @@ static void run_case(cs::Src& s, cs::Ctx& ctx) {
   if (!msgpack) {
     kinds.push_back(100);
     kinds.push_back(103);
+  } else if (bytes.find('\0') == std::string::npos) {
+    kinds.push_back(100);  // Arduino String is a bounded kind (the mock cannot hold NUL bytes)
   }
   ctx.label("arduino-kinds");
 #endif
